@@ -484,9 +484,15 @@ func (cs *Case) vclass(sp *spec, in []*big.Int, i int, got, exp *big.Int) string
 	if sp.family == "idiv" {
 		b = new(big.Int).Abs(toSigned(b, cs.signedWidth()))
 	}
-	k, m := new(big.Int).QuoRem(d, b, new(big.Int))
-	if m.Sign() == 0 && k.CmpAbs(big.NewInt(3)) <= 0 {
-		return fmt.Sprintf("/r%+db", k.Int64())
+	// got = exp + k*b modulo 2^wr (a wrong quotient q+k' gives k = -k').
+	mod := new(big.Int).Lsh(half, 1)
+	for k := int64(-3); k <= 3; k++ {
+		v := new(big.Int).Mul(big.NewInt(k), b)
+		v.Add(v, exp)
+		v.Mod(v, mod)
+		if k != 0 && v.Cmp(got) == 0 {
+			return fmt.Sprintf("/r%+db", k)
+		}
 	}
 	return "/r-far-off"
 }
